@@ -58,6 +58,8 @@ pub fn any_bool(_name: &str) -> bool { next_val("bool") == "true" }
 pub fn any_str(_name: &str, _max: usize) -> String { unescape(&next_val("str")) }
 /// symbolic token: at most `max` printable ASCII characters, none of them a space, ';' or '|'
 pub fn any_token(_name: &str, _max: usize) -> String { unescape(&next_val("str")) }
+/// symbolic string of exactly `len` printable ASCII characters without space, ';' or '|'
+pub fn any_ascii(_name: &str, _len: usize) -> String { unescape(&next_val("str")) }
 /// solver-chosen integer in 0..n
 pub fn choice(_name: &str, _n: usize) -> usize { next_val("choice").parse().unwrap() }
 /// tier parameter (concrete; provided by the check driver)
